@@ -358,7 +358,9 @@ fn case_json(c: &Case) -> J {
 
 fn builtin_key(c: &Case, how: &str) -> String {
     let verb = if how == "timeout" { "builtin-timeout" } else { "builtin-abort" };
-    format!("{verb} {} {}", c.name, c.class)
+    // element-type cases: one key per (built-in, element type) — the list shape is in the replay
+    let class = if c.class.starts_with("elem=") { c.class.split(' ').next().unwrap_or(&c.class) } else { &c.class };
+    format!("{verb} {} {}", c.name, class)
 }
 
 /// `Driver::ask_all` writes a chunk of requests before it reads the answers: the
